@@ -18,7 +18,9 @@ type utxo struct{}
 
 // PubKeyToAddr public key to address
 func (u *utxo) PubKeyToAddr(_ []byte) string {
-	panic("implement me")
+	// utxo addresses are not derived from a public key; reachable from Transaction.From
+	// with a peer-chosen address id, so it must not panic
+	return ""
 }
 
 // ValidateAddr address validation
